@@ -213,7 +213,11 @@ def main(argv=None):
         violations.append((r['subcheck'], rp, {'unlisted_known_id': kid}))
     if r.get('failures'):
       f0 = r['failures'][0]
-      rp = write_replay(pid, r['subcheck'], f0['case'], f0['detail'], seed)
+      ras = (f0.get('detail') or {}).get('replay_as') if isinstance(f0.get('detail'), dict) else None
+      if ras:   # e.g. a fuzz campaign: the replayable unit is the failing input, not the campaign
+        rp = write_replay(pid, ras['subcheck'], ras['case'], f0['detail'].get('detail'), seed)
+      else:
+        rp = write_replay(pid, r['subcheck'], f0['case'], f0['detail'], seed)
       violations.append((r['subcheck'], rp, f0['detail']))
 
   wall = time.time() - t0
